@@ -89,7 +89,9 @@ class Run:
                 known = k
         self.violations.append(dict(obligation=obligation, key=key, what=what, replay=path, known=bool(known)))
         if known:
-            print(f"KNOWN-FINDING: property={self.pid} {known.get('what', what)} [key={key}] replay={path}", flush=True)
+            if key not in getattr(self, "_printed_known", set()):
+                self._printed_known = getattr(self, "_printed_known", set()) | {key}
+                print(f"KNOWN-FINDING: property={self.pid} {known.get('what', what)} [key={key}] replay={path}", flush=True)
             return "known"
         print(f"VIOLATION property={self.pid} replay={path}", flush=True)
         print(f"  obligation={obligation} key={key} what={what}", flush=True)
